@@ -8,6 +8,7 @@ mod c04;
 mod c05;
 mod c07;
 mod c08;
+mod c09;
 mod c19;
 mod pipe;
 mod scan;
@@ -50,6 +51,8 @@ fn main() {
                 "C02" => scan::record_c02(&mut rec, seed, thorough),
                 "C03" => scan::record_c03(&mut rec, seed, thorough),
                 "C08" => c08::record(&mut rec, seed, thorough),
+                "C09" => c09::record_c09(&mut rec, seed, thorough),
+                "C10" => c09::record_c10(&mut rec, seed, thorough),
                 _ => {
                     eprintln!("unknown property {}", prop);
                     std::process::exit(2);
